@@ -218,9 +218,9 @@ Section WithEnv.
 
   (* the constructors *)
   Definition ctor_plain : res elfio := create (empty_elfio false) C32 LSB.
-  (* elfio( compression_interface* ): the body "elfio();" builds and drops a
-     temporary, so the object itself stays without header and sections *)
-  Definition ctor_compr : res elfio := Ok (empty_elfio true).
+  (* elfio( compression_interface* ): initialises the object like the default
+     constructor (since the C03 fix; the original body built and dropped a temporary) *)
+  Definition ctor_compr : res elfio := create (empty_elfio true) C32 LSB.
 
   (* create_segment() — elfio.hpp:502-523 (header dereferenced unchecked) *)
   Definition segments_add (el : elfio) : res (elfio * N) :=
